@@ -108,6 +108,8 @@ pub struct MapRun {
     retired_while_held: bool,
     /// logical time just after the guard of the current operation was created
     last_inv: u64,
+    /// the current operation runs with `Guard::unprotected()`
+    unprotected: bool,
 }
 
 fn panic_msg(e: Box<dyn std::any::Any + Send>) -> String {
@@ -167,6 +169,7 @@ impl MapRun {
             displaced: BTreeMap::new(),
             retired_while_held: false,
             last_inv: 0,
+            unprotected: false,
         }
     }
 
@@ -233,6 +236,12 @@ impl MapRun {
 
     /// run `f` with a guard according to the facade (`None` = use `pin()`)
     fn with_guard<R>(&mut self, f: impl FnOnce(&mut Self, Option<&seize::Guard<'static>>) -> Result<R, Fail>) -> Result<R, Fail> {
+        if self.unprotected {
+            // no guard of ours is alive (the caller released the long-lived one)
+            let ug: seize::Guard<'static> = unsafe { seize::Guard::unprotected() };
+            self.last_inv = tick();
+            return f(self, Some(&ug));
+        }
         match self.cfg.facade {
             Facade::Pin => {
                 self.last_inv = tick();
@@ -963,6 +972,20 @@ impl MapRun {
             Op::Retain(p) => self.op_retain(*p, false),
             Op::RetainForce(p) => self.op_retain(*p, true),
             Op::Clear => self.op_clear(),
+            Op::ClearUnprotected => {
+                self.release_long()?;
+                self.unprotected = true;
+                let r = self.op_clear();
+                self.unprotected = false;
+                r
+            }
+            Op::RetainUnprotected(p, force) => {
+                self.release_long()?;
+                self.unprotected = true;
+                let r = self.op_retain(*p, *force);
+                self.unprotected = false;
+                r
+            }
             Op::Reserve(n) => self.op_reserve(*n as usize),
             Op::Extend(items, h) => self.op_extend(items, *h),
             Op::Collect(items, h) => self.op_collect(items, *h),
